@@ -1,8 +1,9 @@
 (* C15 -- Unit conversion and value formatting preserve magnitude.
    Property theorems only: each is closed by [exact] of a lemma from L_Measure and followed by
    Print Assumptions.  [unit_types] is REGENERATED from /repo on every run (Gen/Gen_UnitTable.v). *)
-From Coq Require Import QArith Qabs.
-From PV Require Import M_Measure S_Measure L_Measure Gen.Gen_UnitTable.
+From Coq Require Import QArith Qabs Qreals.
+From Flocq Require Import Core BinarySingleNaN.
+From PV Require Import M_Measure M_MeasureF S_Measure L_Measure L_MeasureF_Round Gen.Gen_UnitTable.
 Open Scope Z_scope.
 
 (* -- facts about the table the code has now (re-proved whenever the table changes) -- *)
@@ -116,6 +117,29 @@ Theorem percentage_sign_blind : forall v t,
 Proof. exact pct_ratio_sign. Qed.
 Print Assumptions percentage_sign_blind.
 
+(* -- the float computation the code performs vs the exact ratio (link M_MeasureF -> M_Measure) -- *)
+(* the memory and time families of the current table have whole-number factors below 2^53 *)
+Theorem memory_time_factors_whole :
+  forallb whole_family_b (firstn 2 unit_types) = true /\ List.length unit_types = 3%nat.
+Proof. vm_compute. split; reflexivity. Qed.
+Print Assumptions memory_time_factors_whole.
+
+(* in such a family, whatever the target mode (explicit unit, auto, minimum, unknown -> default unit),
+   float64(value)*from.Factor/target.Factor is finite and is THE float nearest (ties to even) to the
+   exact quotient of the rational model, as long as |value|*from.Factor < 2^53.  Uses the standard
+   library's real numbers (axioms listed below; named in the trusted base). *)
+Theorem whole_factor_conversion_correctly_rounded : forall ut x from to fu kf,
+  whole_family ut -> sniff_unit ut from = Some fu -> u_factor fu = inject_Z kf ->
+  (0 < kf < 2 ^ 53) -> (Z.abs x * kf < 2 ^ 53) ->
+  exists v w, convert_unit_f ut x from to = Some (v, u_name w) /\
+              (In w (ut_units ut) \/ w = ut_default ut) /\
+              SF2R radix2 v =
+                round radix2 (SpecFloat.fexp 53 1024) ZnearestE
+                  (Rdefinitions.Q2R (inject_Z x * u_factor fu / u_factor w)) /\
+              F64.is_finite v = true.
+Proof. exact convert_unit_f_correctly_rounded. Qed.
+Print Assumptions whole_factor_conversion_correctly_rounded.
+
 (* -- non-vacuity: the hypotheses are met by the real table -- *)
 Example family_of_kb : exists ut u, family_of unit_types "KiloBytes" = Some (ut, u) /\ u_name u = "kB"%string
                                    /\ centi_integral ut = true.
@@ -124,3 +148,13 @@ Example scale_example : (fst (scale unit_types 2048 "kb" "mb") == 2)%Q /\ snd (s
 Proof. vm_compute. split; reflexivity. Qed.
 Example label_example : scaled_label unit_types 1536 "bytes" "auto" = "1.50kB"%string.
 Proof. vm_compute. reflexivity. Qed.
+Example rounding_hypotheses_met :
+  match nth_error unit_types 1 with
+  | Some ut => whole_family_b ut &&
+               match sniff_unit ut "milliseconds" with
+               | Some fu => Qeq_bool (u_factor fu) (inject_Z 1000000) && Pos.eqb (Qden (u_factor fu)) 1
+               | None => false
+               end
+  | None => false
+  end = true /\ (Z.abs 3600000 * 1000000 <? 2 ^ 53) = true.
+Proof. split; vm_compute; reflexivity. Qed.
